@@ -442,3 +442,81 @@ Lemma full_example_proof :
   map (fun n => let v := fold_left (fv_step c o TCl n) h fv_init in (fv_in v, is_some (fv_val v), fv_meta v)) ["a"; "b"] =
   [(false, false, None); (true, true, Some 1020000%N)].
 Proof. vm_compute. reflexivity. Qed.
+
+(** ---- endpoint-set keys with resolver lookups; resolution after any history ---- *)
+Lemma full_op_not_ep t x : t <> TEp -> full_op t x = true.
+Proof. intros H. destruct x; try reflexivity. cbn [full_op]. destruct t; try reflexivity. exfalso. apply H. reflexivity. Qed.
+
+Lemma final_finv c o h : finv (final c o h).
+Proof.
+  unfold final. assert (G : forall h0 s, finv s -> finv (fst (run c o s h0))).
+  { induction h0 as [|x h0 IH]; intros s F; cbn [run]; [exact F|].
+    pose proof (finv_step c o s x F) as H. destruct (step c o s x) as [s1 ot]. cbn [fst] in H.
+    specialize (IH s1 H). destruct (run c o s1 h0). exact IH. }
+  apply G. exact finv_init.
+Qed.
+
+(** the cluster served after ANY history is the cluster's complete fold *)
+Lemma cluster_is_full_fold c o pre d : aget d (tget TCl (s_cache (final c o pre))) = fv_val (cl_fview c o pre d).
+Proof.
+  unfold cl_fview. rewrite <- (final_refines_full c o TCl d pre); [reflexivity|discriminate|].
+  apply forallb_forall. intros x _. apply full_op_not_ep. discriminate.
+Qed.
+
+Lemma step_full_resolve_ep c o n s d : inv s ->
+  absf TEp n (fst (step c o s (OResolve d))) =
+  match aget d (tget TCl (s_cache s)) with
+  | Some (VCl cl) => match c_inline cl with
+                     | Some _ => absf TEp n s
+                     | None => fv_lookup TEp n (absf TEp n s) TEp (c_epname cl)
+                     end
+  | _ => absf TEp n s
+  end.
+Proof.
+  intros I. cbn [step].
+  assert (Ht : TEp <> TNt) by discriminate.
+  pose proof (absf_lookup TEp n s TCl d Ht I) as H1. pose proof (lookup_inv s TCl d I) as I1.
+  destruct (lookup_result_cache s TCl d) as [Hr Hc].
+  destruct (lookup s TCl d) as [[s1 rq1] r1]. cbn [fst snd] in H1, I1, Hr, Hc.
+  assert (H1' : absf TEp n s1 = absf TEp n s) by (rewrite H1; reflexivity).
+  subst r1. destruct (aget d (tget TCl (s_cache s))) as [[l|r0|cl|e|]|]; cbn [fst]; try exact H1'.
+  destruct (c_inline cl); cbn [fst]; [exact H1'|].
+  pose proof (absf_lookup TEp n s1 TEp (c_epname cl) Ht I1) as H2.
+  destruct (lookup s1 TEp (c_epname cl)) as [[s2 rq2] r2]. cbn [fst] in *. rewrite H2, H1'. reflexivity.
+Qed.
+
+Lemma final_snoc_full c o pre x : final c o (pre ++ [x]) = fst (step c o (final c o pre) x).
+Proof.
+  unfold final. rewrite run_app. cbn [run]. destruct (step c o (fst (run c o init_state pre)) x) as [s1 ot]. reflexivity.
+Qed.
+
+(** the complete refinement for endpoint-set keys: EVERY history, no exception *)
+Lemma run_refines_ep_full c o n h : forall pre,
+  absf TEp n (fst (run c o (final c o pre) h)) = ep_ffold c o n pre (absf TEp n (final c o pre)) h.
+Proof.
+  induction h as [|x h IH]; intros pre; cbn [run ep_ffold]; [reflexivity|].
+  specialize (IH (pre ++ [x])%list). rewrite final_snoc_full in IH.
+  pose proof (final_finv c o pre) as F.
+  destruct (step c o (final c o pre) x) as [s1 ot] eqn:Es. cbn [fst] in IH.
+  destruct (run c o s1 h) as [s2 ots]. cbn [fst] in *. rewrite IH. f_equal.
+  assert (E1 : s1 = fst (step c o (final c o pre) x)) by (rewrite Es; reflexivity). rewrite E1.
+  destruct x; try (apply step_refines_full; [discriminate|exact F|reflexivity]).
+  rewrite (step_full_resolve_ep c o n _ desc (f_inv _ F)), (cluster_is_full_fold c o pre desc). reflexivity.
+Qed.
+
+Lemma endpoints_are_full_fold c o pre e : aget e (tget TEp (s_cache (final c o pre))) = fv_val (ep_fview c o pre e).
+Proof.
+  unfold ep_fview. pose proof (run_refines_ep_full c o e pre []) as H.
+  change (final c o []) with init_state in H. rewrite absf_init in H. rewrite <- H. reflexivity.
+Qed.
+
+(** C10 after ANY history (eviction sweeps, clock ticks, failures, earlier resolutions): resolving [d] returns [resolve]
+    applied to the complete folds *)
+Theorem resolution_of_any_history c o pre d :
+  o_lookup (snd (step c o (final c o pre) (OResolve d))) = Some (LResolved (expected_resolution_full c o pre d)).
+Proof.
+  rewrite resolve_step. unfold expected_resolution_full, cached_cluster.
+  rewrite (cluster_is_full_fold c o pre d). f_equal. f_equal.
+  destruct (fv_val (cl_fview c o pre d)) as [[l|r0|cl|e|]|]; try reflexivity.
+  apply resolve_eds_ext. unfold cached_endpoints. rewrite (endpoints_are_full_fold c o pre _). reflexivity.
+Qed.
